@@ -69,6 +69,11 @@ def _phase_a(args):
             for o in p.obligations:
                 name = f"{spec.name}/{o.label}@{pk}"
                 text, varmap = smt.emit(o.facts, o.goal, want_model=True)
+                alt = None
+                if o.goal.op == "eq" and S.has_division(o.goal.a[0]):
+                    # tactic: clear denominators (sound where the logged safe-div obligations hold)
+                    num, _den = S.numden(o.goal.a[0])
+                    alt, _ = smt.emit(o.facts, S._cmp("eq", num), want_model=False)
                 h = hashlib.sha1(text.encode()).hexdigest()
                 if h in seen_text:
                     seen_text[h]["aliases"].append(name)
@@ -79,6 +84,7 @@ def _phase_a(args):
                     "kind": o.kind,
                     "show": o.show,
                     "smt": text,
+                    "smt_cleared": alt,
                     "vars": varmap,
                     "path": pk,
                     "aliases": [],
@@ -256,6 +262,14 @@ def main(argv=None):
 
     def solve_one(o):
         sp = spec_by_idx[o["cidx"]]
+        if o.get("smt_cleared"):
+            v, out, dt = smt.run_solver(o["smt_cleared"], min(sp.timeout, 60), "z3")
+            if v == "unsat":
+                return {"verdict": "unsat", "solver": "z3/denominators-cleared", "out": out, "seconds": dt, "log": [("z3/denominators-cleared", v, round(dt, 3))]}
+            r = smt.solve_portfolio(o["smt"], sp.timeout, sp.solvers)
+            r["log"].insert(0, ("z3/denominators-cleared", v, round(dt, 3)))
+            r["seconds"] += dt
+            return r
         return smt.solve_portfolio(o["smt"], sp.timeout, sp.solvers)
 
     from concurrent.futures import ThreadPoolExecutor
